@@ -86,29 +86,32 @@ theorem modify_refines_from_invariant (q : T → Nat → T × Nat) (qv : JV → 
     modifyV qv ps (abs v) = some (abs r.1) ∧ Inv r.2.1 r.2.2 r.1 :=
   ⟨(modifyAll_sound q qv hq habs ps v A f r inv h).1, (modifyAll_sound q qv hq habs ps v A f r inv h).2.1⟩
 
-/-! ### the assumption behind "fresh" labels -/
+/-! ### registered cells are live: why fresh labels are a faithful model of addresses -/
 
 /-- The model draws the label of a new container from a counter, so a new label never equals a
-    registered one.  Go addresses behave like that only while the registered container is LIVE.  The
-    statement that every registered label occurs in the current value: -/
-def owned_live_statement : Prop :=
-  ∀ (p : Path) (v n : T) (A : List Nat) (f : Nat) v' A' f' log,
-    upd A f p v n = some (v', A', f', log) → (∀ a ∈ A, a ∈ v.ids) → ∀ a ∈ A', a ∈ v'.ids
+    registered one.  Go addresses behave like that only while the registered container is LIVE: the
+    address of a collected array can be handed out again.  **Every registered label occurs in the
+    current value** throughout a `_modify` reduction started with an empty allocator, for every list of
+    key/index paths and every update query: the subtree an update replaces has been released before
+    (622959f) and an owned array that is re-allocated is unregistered (`a.free`, abb84a0).
+    Before abb84a0 this was false — `upd` kept the label of the re-allocated array registered — and the
+    C05 re-run oracle found the consequence: results of `|=` that changed from run to run with GC timing. -/
+theorem registered_cells_live (q : T → Nat → T × Nat) (hq : QOK q) (ps : List Path) (v : T) (f : Nat)
+    (r : T × List Nat × Nat) (hv : ∀ j ∈ v.ids, j < f) (h : modifyAll q ps (v, [], f) = some r) :
+    ∀ a ∈ r.2.1, a ∈ r.1.ids :=
+  modifyAll_live q hq ps v [] f r (inv_empty v f hv) (by simp) h
 
-/-- … is FALSE of the code as it stands: when an owned array outgrows its capacity, `updateArrayIndex`
-    allocates a new one (`c *= 2`) and leaves the old address registered (`updateArraySlice` does the same
-    when the length changes).  Witness: the owned one-element array in cell 5, index 1.  The dead array
-    can be collected and its address handed to a container built by the update query, which is then
-    updated in place although the query's output references it twice (found by the C05 re-run oracle:
-    key `rerun-differs:. as $n | [] | (.[range($n)][0,1,2,3,4], …`).  All theorems of this file are about
-    the model, in which labels are never reused: that no registered address is reused while the
-    allocator lives is an ASSUMPTION of the tie to the code (checks.d: `assumptions`). -/
-theorem owned_live_counterexample : ¬ owned_live_statement := by
-  intro h
-  have := h [.idx 1] (.node 5 false 1 [([], T.null)]) (.leaf (.bool true)) [5] 10
-    (.node 10 false 2 [([], T.null), ([], .leaf (.bool true))]) [10, 5] 11 [] rfl
-    (by simp [T.ids]) 5 (by simp)
-  simp [T.ids, idsK, T.null] at this
+/-- a single `update`: a registered cell that is no longer reachable was dead before or sat in the
+    subtree that was replaced (which `_modify` releases first; `_assign` does not, but it places no
+    container into the value that was allocated after the reduction began) -/
+theorem update_keeps_registered_live (p : Path) (v n : T) (A : List Nat) (f : Nat) v' A' f' log
+    (h : upd A f p v n = some (v', A', f', log)) :
+    ∀ a ∈ A', a ∉ v'.ids → a ∈ A ∧ (a ∉ v.ids ∨ a ∈ (subE p v).ids) :=
+  upd_live p v n A f v' A' f' log h
+
+/-- the re-allocation of an owned array unregisters it (the repair abb84a0 on the model): the owned
+    one-element array in cell 5 outgrows its capacity -/
+example : (upd [5] 10 [.idx 1] (.node 5 false 1 [([], T.null)]) (.leaf (.bool true))).map (fun r => r.2.1) = some [10] := by rfl
 
 /-! ### value-level algebra (C02 item 2) -/
 
